@@ -88,3 +88,12 @@ package checks
 //@   ensures len(problems) <= 1
 //@   ensures len(problems) == 1 ==> anyDep && problems[0].Severity == Warning && problems[0].Anchor == AnchorBefore &&
 //@              problems[0].Reporter == RuleDependencyCheckName && problems[0].Lines == entry.Rule.Lines
+
+// ---------------------------------------------------------------------------------------------
+// C18: templated patterns accepted at load time never crash when expanded against a concrete rule.
+// Every use site calls MatchString on MustExpand's result, so it must never be nil, whatever the rule's labels
+// expand the template to.
+//@ func TemplatedRegexp.MustExpand [C18]
+//@   ensures result != nil
+//@ func TemplatedRegexp.Expand [C18]
+//@   ensures result1 == nil ==> result0 != nil
